@@ -36,6 +36,8 @@ class TaskHandler:
         self._pending = {}
         self._job_id = 0
         self._lock = threading.Lock()
+        # accepting a task and closing the handler are one step each, under this lock
+        self._accept_lock = threading.Lock()
         self._open = True
 
     def _next_id(self):
@@ -56,11 +58,14 @@ class TaskHandler:
         :param args: the args to pass to the function
         :return: a future that can be listened to for completion
         """
-        self.__check_open()
-        next_id = self._next_id()
-        # there is an at exit in threading that prevents submitting tasks after shutdown, but no api to check this
-        future = self._pool.submit(task, *args)
-        self._pending[next_id] = future
+        # a submission that races flush() is either registered before the flush looks at the pending tasks (and is
+        # waited for), or refused: checked and registered in one step
+        with self._accept_lock:
+            self.__check_open()
+            next_id = self._next_id()
+            # there is an at exit in threading that prevents submitting tasks after shutdown, but no api to check this
+            future = self._pool.submit(task, *args)
+            self._pending[next_id] = future
 
         # cannot use 'del' in lambda: https://stackoverflow.com/a/41953232/5151254
         def callback(_future: Future):
@@ -74,9 +79,11 @@ class TaskHandler:
 
     def flush(self):
         """Await completion of all pending tasks."""
-        self._open = False
-        if len(self._pending) > 0:
-            for future in list(self._pending.values()):
+        with self._accept_lock:
+            self._open = False
+            pending = list(self._pending.values())
+        if len(pending) > 0:
+            for future in pending:
                 try:
                     # wait for the task to finish; a failure of the task itself is reported by its done callback
                     future.exception(10)
